@@ -19,7 +19,7 @@ class FixedPropChoiceStatementSerializer(BaseStatementSerializer):
                                                                  st_property=a_statement.st_property,
                                                                  namespaces_dict=namespaces_dict))
 
-        content_line = st_property + SPACES_GAP_BETWEEN_TOKENS
+        content_line = self._sense_flag() + st_property + SPACES_GAP_BETWEEN_TOKENS
         content_line += (SPACES_GAP_BETWEEN_TOKENS + "OR" + SPACES_GAP_BETWEEN_TOKENS).join(st_target_elements)
         content_line += SPACES_GAP_BETWEEN_TOKENS + BaseStatementSerializer.cardinality_representation(
             statement=a_statement,
